@@ -2,12 +2,30 @@ import PsVerif.Model.Init
 /-!
 # Well-formed interpreter data and the data operators (C01, heap-invariant part)
 
-`WF v` says that every view held anywhere in `v` lies inside a store of the right kind.
-From a well-formed `VM` no operator of `pureBuiltin` reaches an `Err.panic` outcome, and
-the result is well-formed again (`pure_wf`).  In addition every operator only *extends*
-the heap (`Ext`: cells keep kind and size, new cells are appended) and keeps `roots`
-(`pure_post`), which is what the looping operators of `Interp.lean` need to keep their
-views valid across calls.
+`WF v` says that every view held anywhere in `v` lies inside a store of the right kind:
+
+* every object on the operand stack, in every `.objs` cell, every dictionary value and
+  every field of every `.cmap` cell is `objOK`: a view `(ref, off, len)` points to a cell
+  of the right kind with `off + len ≤ size`; `.dict r` / `.cmapInfo r` point to cells of the
+  right kind; `.builtin id` has a `knownBuiltin` id; and no object is the resource
+  dictionary itself (`.dict r` requires `r ≠ roots.resources`);
+* the dictionary stack has at least two entries; its entries and the stale entries
+  `dictGhost` are `.dict` cells other than the resource dictionary;
+* the seven `roots` are `.dict` cells; every value of the resource dictionary is a `.dict`;
+* `cmapMappings = some r` points to a `.cmap` cell.
+
+Main results (no operator is missing: all ids of `pureBuiltin` / `cmapBuiltin` are covered):
+
+* `wf_newVM : WF newVM`;
+* `pure_post` : for every operator of `pureBuiltin` started in a well-formed state the
+  result is well-formed, the heap is only *extended* (`Ext`: cells keep kind and size, new
+  cells are appended), `roots` is unchanged and the outcome is not `Err.panic`;
+  `pure_wf` / `pure_ext` are its two halves.  One lemma `b…_post` per operator.
+* `bind_ok` : the same for `bindProc` / `bindLoop` with any fuel; `bBind_no_fuel` : with the
+  fuel `bBind` passes, `Res.fuel` is not an outcome; `pure_no_fuel` : no data operator
+  returns `Res.fuel`.
+* `known_dispatch` : a `knownBuiltin` id is one of the ten operators `callBuiltin` handles
+  itself or is accepted by `pureBuiltin` (so the "unknown builtin" panic is excluded too).
 -/
 namespace PsVerif.Proofs.WF
 open PsVerif.Model
@@ -1599,4 +1617,385 @@ theorem bGet_post (v : VM) (h : WF v) : Post v (bGet v) := by
     · wf_leaf h
   · wf_leaf h
 
+
+/-! ### all data operators -/
+
+theorem cmapBuiltin_post (id : String) (v : VM) (p : VM × Res) (h : WF v) (e : cmapBuiltin id v = some p) :
+    Post v p := by
+  unfold cmapBuiltin at e
+  split at e <;> first
+    | (have e' := Option.some.inj e
+       rw [← e']
+       first
+       | exact bBegincmap_post v h | exact bEndcmap_post v h | exact bUsecmap_post v h
+       | exact bBegincodespacerange_post v h | exact bEndcodespacerange_post v h
+       | exact bBeginChars_post v h | exact bBeginRanges_post v h
+       | exact bEndcidchar_post v h | exact bEndbfchar_post v h | exact bEndnotdefchar_post v h
+       | exact bEndcidrange_post v h | exact bEndbfrange_post v h | exact bEndnotdefrange_post v h)
+    | (simp at e; done)
+
+theorem pure_post (id : String) (v : VM) (p : VM × Res) (h : WF v) (e : pureBuiltin id v = some p) :
+    Post v p := by
+  unfold pureBuiltin at e
+  split at e <;> first
+    | exact cmapBuiltin_post id v p h e
+    | (have e' := Option.some.inj e
+       rw [← e']
+       first
+       | exact bMark_post v h | exact bListEnd_post v h | exact bDictEnd_post v h | exact bAbs_post v h
+       | exact bAdd_post v h | exact bAnd_post v h | exact bArray_post v h | exact bBegin_post v h
+       | exact bBind_post v h | exact bCleartomark_post v h | exact bClosefile_post v h
+       | exact bCopy_post v h | exact bCount_post v h | exact bCurrentdict_post v h
+       | exact bCurrentfile_post v h | exact bCvx_post v h | exact bDef_post v h
+       | exact bDefinefont_post v h | exact bDefineresource_post v h | exact bDict_post v h
+       | exact bDup_post v h | exact bEnd_post v h | exact bEq_post v h | exact bExch_post v h
+       | exact bNop_post v h | exact exit_post v h | exact stop_post v h | exact bFindfont_post v h
+       | exact bFindresource_post v h | exact bGet_post v h | exact bGetinterval_post v h
+       | exact bIndex_post v h | exact bInternaldict_post v h | exact bKnown_post v h
+       | exact bLength_post v h | exact bLoad_post v h | exact bMatrix_post v h
+       | exact bMaxlength_post v h | exact bMul_post v h | exact bNe_post v h | exact bNot_post v h
+       | exact bOr_post v h | exact bPop_post v h | exact bPut_post v h | exact bPutinterval_post v h
+       | exact bRoll_post v h | exact bString_post v h | exact bSub_post v h | exact bType_post v h
+       | exact bWhere_post v h)
+
+
+/-! ### the initial state -/
+
+theorem stdEnc_length : standardEncoding.length = 256 := by decide +kernel
+
+theorem shapeAt_init_dict (r : Nat) (hr : r < 11) (h4 : r ≠ 4) : shapeAt initHeap r = some .dict := by
+  match r, hr, h4 with
+  | 0, _, _ => rfl
+  | 1, _, _ => rfl
+  | 2, _, _ => rfl
+  | 3, _, _ => rfl
+  | 5, _, _ => rfl
+  | 6, _, _ => rfl
+  | 7, _, _ => rfl
+  | 8, _, _ => rfl
+  | 9, _, _ => rfl
+  | 10, _, _ => rfl
+
+theorem shapeAt_init_stdEnc : shapeAt initHeap 4 = some (.objs 256) := by
+  have : shapeAt initHeap 4 = some (.objs (standardEncoding.map Obj.name).toArray.size) := rfl
+  rw [this, List.size_toArray, List.length_map, stdEnc_length]
+
+theorem init_dictRef (r : Nat) (hr : r < 11) (h4 : r ≠ 4) (h9 : r ≠ 9) : isDictRef initHeap 9 r :=
+  ⟨shapeAt_init_dict r hr h4, h9⟩
+
+theorem wf_newVM : WF newVM where
+  stack := by intro o ho; simp [newVM] at ho
+  heap := by
+    show heapOK initHeap 9
+    intro c hc
+    simp only [initHeap, List.mem_toArray, List.mem_cons, List.not_mem_nil, or_false] at hc
+    rcases hc with rfl | rfl | rfl | rfl | rfl | rfl | rfl | rfl | rfl | rfl | rfl
+    · intro p hp
+      rcases List.mem_append.mp hp with hp | hp
+      · obtain ⟨n, hn, rfl⟩ := List.mem_map.mp hp
+        exact Or.inl hn
+      · simp only [List.mem_cons, List.not_mem_nil, or_false] at hp
+        rcases hp with rfl | rfl | rfl | rfl | rfl | rfl | rfl
+        · exact init_dictRef 2 (by decide) (by decide) (by decide)
+        · trivial
+        · exact init_dictRef 3 (by decide) (by decide) (by decide)
+        · exact ⟨256, shapeAt_init_stdEnc, by decide⟩
+        · trivial
+        · exact init_dictRef 1 (by decide) (by decide) (by decide)
+        · exact init_dictRef 0 (by decide) (by decide) (by decide)
+    · intro p hp; simp at hp
+    · intro p hp
+      obtain ⟨n, hn, rfl⟩ := List.mem_map.mp hp
+      exact Or.inr (Or.inr rfl)
+    · intro p hp; simp at hp
+    · intro o ho
+      simp only [List.mem_toArray, List.mem_map] at ho
+      obtain ⟨n, hn, rfl⟩ := ho
+      trivial
+    · intro p hp; simp at hp
+    · intro p hp; simp at hp
+    · intro p hp
+      obtain ⟨n, hn, rfl⟩ := List.mem_map.mp hp
+      exact Or.inr (Or.inl (List.mem_map.mpr ⟨n, hn, rfl⟩))
+    · intro p hp
+      simp only [List.mem_cons, List.not_mem_nil, or_false] at hp
+      subst hp
+      exact init_dictRef 7 (by decide) (by decide) (by decide)
+    · intro p hp
+      simp only [List.mem_cons, List.not_mem_nil, or_false] at hp
+      rcases hp with rfl | rfl | rfl | rfl
+      · exact init_dictRef 3 (by decide) (by decide) (by decide)
+      · exact init_dictRef 6 (by decide) (by decide) (by decide)
+      · exact init_dictRef 5 (by decide) (by decide) (by decide)
+      · exact init_dictRef 8 (by decide) (by decide) (by decide)
+    · intro p hp; simp at hp
+  dsLen := by simp [newVM]
+  ds := by
+    intro r hr
+    simp only [newVM, List.mem_cons, List.not_mem_nil, or_false] at hr
+    rcases hr with rfl | rfl
+    · exact init_dictRef 1 (by decide) (by decide) (by decide)
+    · exact init_dictRef 0 (by decide) (by decide) (by decide)
+  ghost := by intro r hr; simp [newVM] at hr
+  rSystem := init_dictRef 0 (by decide) (by decide) (by decide)
+  rUser := init_dictRef 1 (by decide) (by decide) (by decide)
+  rError := init_dictRef 2 (by decide) (by decide) (by decide)
+  rInternal := init_dictRef 10 (by decide) (by decide) (by decide)
+  rFont := init_dictRef 3 (by decide) (by decide) (by decide)
+  rCMap := init_dictRef 5 (by decide) (by decide) (by decide)
+  rRes := shapeAt_init_dict 9 (by decide) (by decide)
+  resVals := by
+    intro p hp
+    have : dictAt newVM.heap newVM.roots.resources =
+        [("Font", .dict refFontDirectory), ("CIDFont", .dict refCIDFont), ("CMap", .dict refCMapDirectory),
+         ("ProcSet", .dict refProcSet)] := rfl
+    rw [this] at hp
+    simp only [List.mem_cons, List.not_mem_nil, or_false] at hp
+    rcases hp with rfl | rfl | rfl | rfl <;> exact ⟨_, rfl⟩
+  cmap := by intro r hr; simp [newVM] at hr
+
+/-! ### the main statements -/
+
+/-- C01 for the data operators: from a well-formed state no operator of `pureBuiltin`
+panics, and the state stays well-formed -/
+theorem pure_wf (id : String) (v v' : VM) (r : Res) :
+    WF v → pureBuiltin id v = some (v', r) → WF v' ∧ (∀ site, r ≠ .err (.panic site)) := by
+  intro h e
+  have p := pure_post id v (v', r) h e
+  exact ⟨p.wf, p.nopanic⟩
+
+/-- moreover the heap is only extended and the roots stay -/
+theorem pure_ext (id : String) (v v' : VM) (r : Res) :
+    WF v → pureBuiltin id v = some (v', r) → Ext v.heap v'.heap ∧ v'.roots = v.roots := by
+  intro h e
+  have p := pure_post id v (v', r) h e
+  exact ⟨p.ext, p.roots⟩
+
+
+/-! ### every known builtin is dispatched -/
+
+/-- the operators `callBuiltin` handles itself (they re-enter the interpreter or touch the scanner) -/
+def reentrantIds : List String :=
+  ["exec", "if", "ifelse", "for", "repeat", "loop", "forall", "readstring", "defaultErrorHandler", "eexec"]
+
+/-- a `builtin` value of a well-formed state never reaches the "unknown builtin" panic of
+`callBuiltin`: its id is one of the control operators or an operator of `pureBuiltin` -/
+theorem known_dispatch (id : String) (v : VM) (hk : knownBuiltin id) :
+    id ∈ reentrantIds ∨ (pureBuiltin id v).isSome = true := by
+  unfold knownBuiltin at hk
+  simp only [systemOperators, cidInitKeys, List.map_cons, List.map_nil, List.mem_cons, List.not_mem_nil,
+    or_false] at hk
+  rcases hk with
+    (rfl | rfl | rfl | rfl | rfl | rfl | rfl | rfl | rfl | rfl | rfl | rfl | rfl | rfl | rfl | rfl | rfl | rfl | rfl |
+     rfl | rfl | rfl | rfl | rfl | rfl | rfl | rfl | rfl | rfl | rfl | rfl | rfl | rfl | rfl | rfl | rfl | rfl | rfl |
+     rfl | rfl | rfl | rfl | rfl | rfl | rfl | rfl | rfl | rfl | rfl | rfl | rfl | rfl | rfl | rfl | rfl | rfl | rfl |
+     rfl | rfl | rfl | rfl | rfl | rfl) |
+    (rfl | rfl | rfl | rfl | rfl | rfl | rfl | rfl | rfl | rfl | rfl | rfl | rfl | rfl | rfl | rfl | rfl) | rfl
+  all_goals first
+    | (right; rfl)
+    | (left; decide)
+
+
+/-! ### the fuel `bBind` passes to `bindProc` is enough -/
+
+def SameShape (h h' : Array Cell) : Prop := ∀ r, shapeAt h' r = shapeAt h r
+
+theorem SameShape.refl (h : Array Cell) : SameShape h h := fun _ => rfl
+theorem SameShape.trans {a b c : Array Cell} (h1 : SameShape a b) (h2 : SameShape b c) : SameShape a c :=
+  fun r => (h2 r).trans (h1 r)
+
+theorem sameShape_set {h : Array Cell} {r : Nat} {c : Cell} (hs : shapeAt h r = some (shape c)) :
+    SameShape h (h.setIfInBounds r c) := by
+  intro r'
+  rw [shapeAt_set]
+  split
+  · next heq => subst heq; rw [if_pos (shapeAt_lt hs), hs]
+  · rfl
+
+/-- all `.objs` cells have at most `S` elements -/
+def Bounded (S : Nat) (h : Array Cell) : Prop := ∀ r n, shapeAt h r = some (.objs n) → n ≤ S
+
+theorem Bounded.of_same {S : Nat} {h h' : Array Cell} (hb : Bounded S h) (hs : SameShape h h') : Bounded S h' :=
+  fun r n e => hb r n ((hs r).symm.trans e)
+
+theorem set_elem_same {v : VM} {ref n k : Nat} {x : Obj} (hn : shapeAt v.heap ref = some (.objs n)) :
+    SameShape v.heap (v.setCell ref (.objs ((v.getObjs ref).setIfInBounds k x))).heap := by
+  obtain ⟨a, ha, hsz, hq⟩ := cell_of_shape_objs hn
+  refine sameShape_set ?_
+  simp only [shape, Array.size_setIfInBounds, getObjs_eq, hq, hsz]
+  exact hn
+
+def BindProcFuel (fuel : Nat) : Prop :=
+  ∀ (v : VM) (ref off len depth k S : Nat), WF v →
+    (∃ n, shapeAt v.heap ref = some (.objs n) ∧ off + len ≤ n) → Bounded S v.heap →
+    depth + k = maxBindDepth + 2 → 1 ≤ k → k * (S + 2) ≤ fuel →
+    (bindProc fuel v ref off len depth).2 ≠ .fuel ∧ SameShape v.heap (bindProc fuel v ref off len depth).1.heap
+
+def BindLoopFuel (fuel : Nat) : Prop :=
+  ∀ (v : VM) (ref off depth i todo k S : Nat), WF v →
+    (∃ n, shapeAt v.heap ref = some (.objs n) ∧ off + i + todo ≤ n) → Bounded S v.heap →
+    depth + k + 1 = maxBindDepth + 2 → 1 ≤ k → todo + 1 + k * (S + 2) ≤ fuel →
+    (bindLoop fuel v ref off depth i todo).2 ≠ .fuel ∧
+      SameShape v.heap (bindLoop fuel v ref off depth i todo).1.heap
+
+theorem bindLoop_fuel_step {fuel : Nat} (ihP : BindProcFuel fuel) (ihL : BindLoopFuel fuel) :
+    BindLoopFuel (fuel + 1) := by
+  intro v ref off depth i todo k S h hv hb hk hk1 hfuel
+  obtain ⟨n, hn, hle⟩ := hv
+  cases todo with
+  | zero => simp only [bindLoop]; exact ⟨by simp [okRes], SameShape.refl _⟩
+  | succ todo =>
+    simp only [bindLoop]
+    obtain ⟨hsz, hok⟩ := objsAt_ok h.heap hn
+    have hfuel' : todo + 1 + k * (S + 2) ≤ fuel := by omega
+    split
+    · next hnone =>
+      exfalso
+      rw [Array.getElem?_eq_none_iff, getObjs_eq, hsz] at hnone
+      omega
+    · next elem he =>
+      have helem : objOK v.heap v.roots.resources elem := hok elem (Array.mem_of_getElem? he)
+      have hnext : ∃ n, shapeAt v.heap ref = some (.objs n) ∧ off + (i + 1) + todo ≤ n := ⟨n, hn, by omega⟩
+      split
+      · next nm =>
+        split
+        · next b hb' =>
+          have hbok := lookupName_ok h hb'
+          have p1 : Post v (v.setCell ref (.objs ((v.getObjs ref).setIfInBounds (off + i) (.builtin b))), .ok) :=
+            set_elem h hn hbok noPanic_ok
+          have s1 := set_elem_same (k := off + i) (x := .builtin b) hn
+          have q := ihL _ ref off depth (i + 1) todo k S p1.wf ⟨n, p1.ext _ _ hn, by omega⟩ (hb.of_same s1)
+            hk hk1 hfuel'
+          exact ⟨q.1, s1.trans q.2⟩
+        · exact ihL v ref off depth (i + 1) todo k S h hnext hb hk hk1 hfuel'
+      · next r o l =>
+        have p1 : Post v (v.setCell ref (.objs ((v.getObjs ref).setIfInBounds (off + i) .file)), .ok) :=
+          set_elem h hn (by simp [objOK]) noPanic_ok
+        have s1 := set_elem_same (k := off + i) (x := .file) hn
+        obtain ⟨m, hm, hml⟩ := helem
+        have p2 := (bind_ok fuel).1 _ r o l (depth + 1) p1.wf ⟨m, p1.ext _ _ hm, hml⟩
+        have q2 := ihP _ r o l (depth + 1) k S p1.wf ⟨m, p1.ext _ _ hm, hml⟩ (hb.of_same s1)
+          (by omega) hk1 (by omega)
+        generalize bindProc fuel _ r o l (depth + 1) = p at p2 q2 ⊢
+        obtain ⟨s2, res⟩ := p
+        dsimp only at q2 ⊢
+        have p12 := p1.seq p2
+        have hn2 : shapeAt s2.heap ref = some (.objs n) := p12.ext _ _ hn
+        have hproc : objOK s2.heap s2.roots.resources (.proc r o l) := by
+          rw [p12.roots]; exact ⟨m, p12.ext _ _ hm, hml⟩
+        have p3 : Post s2 (s2.setCell ref (.objs ((s2.getObjs ref).setIfInBounds (off + i) (.proc r o l))), res) :=
+          set_elem p2.wf hn2 hproc p2.nopanic
+        have s3 := set_elem_same (k := off + i) (x := .proc r o l) hn2
+        have s123 := (s1.trans q2.2).trans s3
+        split
+        · have q := ihL _ ref off depth (i + 1) todo k S p3.wf ⟨n, p3.ext _ _ hn2, by omega⟩ (hb.of_same s123)
+            hk hk1 hfuel'
+          exact ⟨q.1, s123.trans q.2⟩
+        · exact ⟨q2.1, s123⟩
+      · exact ihL v ref off depth (i + 1) todo k S h hnext hb hk hk1 hfuel'
+
+theorem bindProc_fuel_step {fuel : Nat} (ihL : BindLoopFuel fuel) : BindProcFuel (fuel + 1) := by
+  intro v ref off len depth k S h hv hb hk hk1 hfuel
+  simp only [bindProc]
+  split
+  · exact ⟨by simp [psErr], SameShape.refl _⟩
+  · next hd =>
+    obtain ⟨n, hn, hle⟩ := hv
+    have hlen : len ≤ S := by have := hb ref n hn; omega
+    obtain ⟨k', rfl⟩ : ∃ k', k = k' + 1 := ⟨k - 1, by omega⟩
+    rw [Nat.succ_mul] at hfuel
+    exact ihL v ref off depth 0 len k' S h ⟨n, hn, by omega⟩ hb (by omega) (by omega) (by omega)
+
+theorem bind_fuel : ∀ fuel, BindProcFuel fuel ∧ BindLoopFuel fuel := by
+  intro fuel
+  induction fuel with
+  | zero =>
+    refine ⟨?_, ?_⟩
+    · intro v ref off len depth k S _ _ _ _ hk1 hfuel
+      exfalso
+      have : 1 * (S + 2) ≤ k * (S + 2) := Nat.mul_le_mul_right _ hk1
+      omega
+    · intro v ref off depth i todo k S _ _ _ _ _ hfuel
+      exfalso; omega
+  | succ n ih => exact ⟨bindProc_fuel_step ih.2, bindLoop_fuel_step ih.1 ih.2⟩
+
+theorem foldl_slots_ge (l : List Cell) (init : Nat) :
+    init ≤ l.foldl (fun n c => match c with | .objs a => n + a.size + 1 | _ => n + 1) init := by
+  induction l generalizing init with
+  | nil => exact Nat.le_refl _
+  | cons c cs ih =>
+    simp only [List.foldl_cons]
+    refine Nat.le_trans ?_ (ih _)
+    split <;> omega
+
+theorem foldl_slots_mem (l : List Cell) (init : Nat) (a : Array Obj) (hm : Cell.objs a ∈ l) :
+    init + a.size + 1 ≤ l.foldl (fun n c => match c with | .objs a => n + a.size + 1 | _ => n + 1) init := by
+  induction l generalizing init with
+  | nil => simp at hm
+  | cons c cs ih =>
+    simp only [List.foldl_cons]
+    rcases List.mem_cons.mp hm with rfl | hm
+    · exact foldl_slots_ge cs _
+    · refine Nat.le_trans ?_ (ih _ hm)
+      split <;> omega
+
+theorem bounded_heapSlots (v : VM) : Bounded (heapSlots v) v.heap := by
+  intro r n e
+  obtain ⟨a, ha, hsz, -⟩ := cell_of_shape_objs e
+  have hm : Cell.objs a ∈ v.heap.toList := Array.mem_toList_iff.mpr (Array.mem_of_getElem? ha)
+  have := foldl_slots_mem v.heap.toList 0 a hm
+  rw [Array.foldl_toList] at this
+  have h2 : 0 + a.size + 1 ≤ heapSlots v := this
+  omega
+
+/-- `bind` never runs out of the fuel the model gives it: `Res.fuel` is not an outcome of `bBind` -/
+theorem bBind_no_fuel (v : VM) (h : WF v) : (bBind v).2 ≠ .fuel := by
+  unfold bBind
+  split
+  · simp [psErr]
+  · next r o l rest hst =>
+    have hs := h.stack
+    rw [hst] at hs
+    refine ((bind_fuel _).1 v r o l 0 (maxBindDepth + 2) (heapSlots v) h (hs _ List.mem_cons_self)
+      (bounded_heapSlots v) (by omega) (by omega) ?_).1
+    simp only [maxBindDepth]
+    omega
+  · simp [psErr]
+
+
+/-! ### no data operator runs out of fuel -/
+
+theorem pure_no_fuel (id : String) (v : VM) (p : VM × Res) (h : WF v) (e : pureBuiltin id v = some p) :
+    p.2 ≠ .fuel := by
+  unfold pureBuiltin at e
+  split at e <;> first
+    | (have e' := Option.some.inj e
+       rw [← e']
+       first
+       | exact bBind_no_fuel v h
+       | (simp only [bMark, bListEnd, bDictEnd, bAbs, bAdd, bSub, bMul, arith, bAnd, bOr, bNot, bArray, bBegin,
+            bCleartomark, bClosefile, bCopy, bCount, bCurrentdict, bCurrentfile, bCvx, bDef, bDefinefont,
+            bDefineresource, bDict, bDup, bEnd, bEq, bNe, bEqNe, bExch, bNop, bFindfont, bFindresource, bGet,
+            bGetinterval, bIndex, bInternaldict, bKnown, bLength, bLoad, bMatrix, bMaxlength, bPop, bPut,
+            bPutinterval, bRoll, bString, bType, bWhere, VM.alloc]
+          (repeat' (first | split | dsimp only)) <;> simp [psErr, okRes, VM.push]))
+    | (unfold cmapBuiltin at e
+       split at e <;> first
+         | (have e' := Option.some.inj e
+            rw [← e']
+            simp only [bBegincmap, bEndcmap, bUsecmap, bBegincodespacerange, bEndcodespacerange, bBeginChars,
+              bBeginRanges, bEndcidchar, bEndbfchar, bEndnotdefchar, bEndcidrange, bEndbfrange, bEndnotdefrange,
+              endChars, endRanges, beginBlock, withCMap, VM.alloc]
+            (repeat' (first | split | dsimp only)) <;> simp [psErr, okRes, VM.push])
+         | (simp at e; done))
+
 end PsVerif.Proofs.WF
+
+#print axioms PsVerif.Proofs.WF.wf_newVM
+#print axioms PsVerif.Proofs.WF.pure_post
+#print axioms PsVerif.Proofs.WF.pure_wf
+#print axioms PsVerif.Proofs.WF.pure_ext
+#print axioms PsVerif.Proofs.WF.bind_ok
+#print axioms PsVerif.Proofs.WF.bBind_no_fuel
+#print axioms PsVerif.Proofs.WF.pure_no_fuel
+#print axioms PsVerif.Proofs.WF.known_dispatch
